@@ -332,3 +332,6 @@ LEVEL_NOTE = ("Trusted: Lean kernel + Mathlib's Real.log; the typed parameter se
 
 HARNESS_BIN = "run-primers"
 EXTRACT_BINS = ["extract-primers"]
+
+# the same requests executed 8 at a time in concurrent goroutines (check: PARALLEL / harness: VERIF_PAR)
+PARALLEL = {"quick": {"par": 8, "max_cases": 4000}, "thorough": {"par": 8, "max_cases": 40000, "race": True}}
